@@ -126,6 +126,12 @@ def check(rep, prop, modules, assumptions):
     shutil.rmtree(wd, ignore_errors=True); os.makedirs(wd)
     ok, detail = common.proof_stage(rep, modules, ['npdriver'])
     proof_broken = None if ok else detail
+    if ok and rep.tier == 'thorough':
+        with common.Lock('lake'):
+            rc, o = common.sh(['lake', 'env', 'leanchecker'] + list(modules), cwd=common.LEAN, timeout=1800)
+        rep.cov['leanchecker'] = 'ok' if rc == 0 else 'FAILED'
+        if rc != 0:
+            proof_broken = 'leanchecker rejects the property module:\n' + o[-1500:]
     binary, out = schedrun.build()
     if binary is None:
         rep.violation('instrumented harness does not build against the repo (does the tree compile? did a protocol file change shape?):\n' + out[-2500:],
